@@ -42,7 +42,7 @@ theorem good_init : Good [] ({} : M) := by
   · intro dd hdd; cases hdd
   · intro c i r h; have h' : rq ([] : List Core) c i = some r := h; rw [hrq] at h'; cases h'
   · intro a ha; cases ha
-  · intro cb a h; cases h
+  · exact ⟨(by intro cb a h; cases h), (by intro cb e h; cases h)⟩
 
 theorem news_step {roots news : List Nat} (m : M) (op : Op) (hsub : ∀ p ∈ news, p ∈ roots) :
     ∀ p ∈ (match op with | .new => m.cores.length :: news | _ => news), p ∈ rootsStep roots m.cores.length op := by
@@ -79,8 +79,19 @@ theorem call_has_value (ops : List Op) (hwf : WF ops) (cb : Nat) (a : Int) (h : 
     ∃ c i r ret rej, rq (execAll {} ops).1.cores c i = some r ∧ r.kind = .user cb ret rej ∧
       stOf (execAll {} ops).1.cores c = .fulfilled a := by
   obtain ⟨⟨roots', g⟩, _⟩ := good_execAll ops {} [] [] good_init (fun p hp => by cases hp) hwf
-  obtain ⟨c, i, r, ret, rej, hr, hk, hst, _⟩ := g.log cb a h
+  obtain ⟨c, i, r, ret, rej, hr, hk, hst, _⟩ := g.log.calls cb a h
   exact ⟨c, i, r, ret, rej, hr, hk, hst⟩
+
+/-- E1 (the rejection continuation of the promise it settles): in the log of ANY well-formed program, every run of a
+    custom rejection handler `cb` with exception `e` belongs to a continuation attached to a promise whose exception is
+    exactly `e` (0 = the null exception pointer when that promise is itself pending: a rejection swallowed upstream by
+    the ignore/custom handler of a value-returning continuation and passed on without an exception — as the code is). -/
+theorem handler_gets_exception (ops : List Op) (hwf : WF ops) (cb : Nat) (e : Nat) (h : Ev.callRej cb e ∈ (execAll {} ops).1.log) :
+    ∃ c i r cb0 ret, rq (execAll {} ops).1.cores c i = some r ∧ r.kind = .user cb0 ret (.custom cb) ∧
+      (stOf (execAll {} ops).1.cores c).exc = e := by
+  obtain ⟨⟨roots', g⟩, _⟩ := good_execAll ops {} [] [] good_init (fun p hp => by cases hp) hwf
+  obtain ⟨c, i, r, cb0, ret, hr, hk, hst, _⟩ := g.log.rejs cb e h
+  exact ⟨c, i, r, cb0, ret, hr, hk, hst⟩
 
 /-- V2 (a promise settles once): whatever a well-formed program does after a promise is settled — further
     settlement attempts, late outcomes of combinator inputs, new continuations — its outcome and value stay. -/
